@@ -1,7 +1,7 @@
 (* Properties/C15.v — Equivalent pipelines give identical results (reference semantics, all data). *)
 From Coq Require Import List String NArith ZArith Bool.
 From PDT Require Import Base.StableSort Model.Dtype Model.Value Model.Ops Model.Expr Model.RefSem
-     Proofs.RefLemmas Proofs.JoinUnionLemmas Proofs.EquivLemmas.
+     Model.SqlCompile Model.PlCompile Proofs.RefLemmas Proofs.JoinUnionLemmas Proofs.EquivLemmas Proofs.SqlCompileLemmas Proofs.PlCompileLemmas.
 From PDTGen Require Import Catalogue.
 Import ListNotations.
 Open Scope list_scope.
@@ -42,3 +42,38 @@ Theorem union_all_commutes_in_size : forall l r,
   List.length (rows (do_union l r false)) = (List.length (rows l) + List.length (rows r))%nat.
 Proof. intros. apply union_all_count_proof. Qed.
 Print Assumptions union_all_commutes_in_size.
+
+(* THE LAWS LIFT TO THE BACKENDS.  Two pipelines of the compile fragments that the reference semantics cannot tell
+   apart are compiled to SELECT statements / Polars plans that denote the same table, for all data: every law above
+   (and every other equation of the reference semantics) holds of what the backends build, not only of the
+   specification. *)
+Theorem equivalent_pipelines_give_the_same_sql_result : forall d a1 a2 c1 c2,
+  compile a1 = Some c1 -> flat_ok a1 = true -> compile a2 = Some c2 -> flat_ok a2 = true ->
+  export_ref (sem_ref d a1) = export_ref (sem_ref d a2) -> sem_query d c1 = sem_query d c2.
+Proof.
+  intros d a1 a2 c1 c2 C1 F1 C2 F2 E.
+  rewrite (sql_compile_correct_proof d a1 c1 C1 F1), (sql_compile_correct_proof d a2 c2 C2 F2). exact E.
+Qed.
+Print Assumptions equivalent_pipelines_give_the_same_sql_result.
+
+Theorem equivalent_pipelines_give_the_same_polars_result : forall d a1 a2 s1 s2,
+  pl_compile d a1 = Some s1 -> pflat_ok d a1 = true -> pl_compile d a2 = Some s2 -> pflat_ok d a2 = true ->
+  export_ref (sem_ref d a1) = export_ref (sem_ref d a2) -> pl_export s1 = pl_export s2.
+Proof.
+  intros d a1 a2 s1 s2 C1 F1 C2 F2 E.
+  rewrite (pl_compile_correct_proof d a1 s1 C1 F1), (pl_compile_correct_proof d a2 s2 C2 F2). exact E.
+Qed.
+Print Assumptions equivalent_pipelines_give_the_same_polars_result.
+
+(* an instance: two slices in a row and the single merged slice are compiled to statements with the same result *)
+Example slice_chain_on_sql :
+  let src := Arrange (Source "t" [("x"%string, 1%N)]) [(ECol 1%N, (false, None))] in
+  let a1 := SliceHead (SliceHead src 5 1) 3 2 in
+  let a2 := SliceHead src 3 3 in
+  flat_ok a1 = true /\ flat_ok a2 = true
+  /\ forall d c1 c2, compile a1 = Some c1 -> compile a2 = Some c2 ->
+       export_ref (sem_ref d a1) = export_ref (sem_ref d a2) -> sem_query d c1 = sem_query d c2.
+Proof.
+  split; [reflexivity|]. split; [reflexivity|]. intros d c1 c2 C1 C2 E.
+  apply (equivalent_pipelines_give_the_same_sql_result d _ _ c1 c2 C1 eq_refl C2 eq_refl E).
+Qed.
